@@ -54,5 +54,6 @@ TECHNIQUE = ('Coq model of the run with -x (Run.run_seq / repeat_loop / parent_l
              'predicate (Obs.c16_ok); theorems in P_C16.v; correspondence check on generated worlds, predicate evaluated on the real traces')
 LEVEL_TEXT = ('The model with --stop-on-error is compared event-by-event with the real runner over the full position x kind x repeat x '
               'resume grid and random worlds; c16_ok (no test start and no layer set-up after the first recorded failure in the '
-              'sequential history of processes, leftovers torn down, summary printed, verdict failed) is evaluated on the real traces.')
+              'sequential history of processes, leftovers torn down, summary printed, verdict failed) is evaluated on the real traces.'
+              ' Whole-run theorems (RunStop.v): under -x no start/set-up after the first bad outcome in any process, no child afterwards, verdict failed.')
 LEVEL_NOTE = 'With -j N > 1 which children have started when the first failure arrives is a race; not generated.'
